@@ -77,6 +77,9 @@ def check(run):
             if not ub:
                 run.ob("C10.R4", "%s:names-bound" % f.fq, True, run.site(f))
     run.floor("C10.R4", 20)
+    if run.tier == "thorough":
+        from .. import sweeps
+        run.extra["unbound_names_package_wide"] = sweeps.unbound_sweep(run)
 
 
 MUTANTS = [
